@@ -59,7 +59,17 @@ if os.path.isdir(sd):
 seeded = "\n".join(lines)
 p = os.path.join(V, "DESIGN.md")
 s = open(p).read()
-for name, body in (("selftest", selftest), ("seeded", seeded)):
+rd = os.path.join(V, "refactors")
+lines = ["| id | files changed | builds / suite | checks that raised an alarm | analysis broken |", "|----|---------------|----------------|------------------------------|-----------------|"]
+if os.path.isdir(rd):
+    for d in sorted(os.listdir(rd)):
+        mp = os.path.join(rd, d, "meta.json")
+        if os.path.exists(mp):
+            m = json.load(open(mp))
+            lines.append("| %s | %d | %s / %s | %s | %s |" % (d, len(m.get("files_changed", [])), "yes" if m.get("builds") else "NO",
+                         "yes" if m.get("suite_ok") else "NO", ", ".join(m.get("alarms", [])) or "none", ", ".join(m.get("broken", [])) or "none"))
+refactors = "\n".join(lines)
+for name, body in (("selftest", selftest), ("seeded", seeded), ("refactors", refactors)):
     b, e = "<!-- BEGIN:%s -->" % name, "<!-- END:%s -->" % name
     if b in s:
         s = s[:s.index(b) + len(b)] + "\n" + body + "\n" + s[s.index(e):]
